@@ -244,7 +244,7 @@ func init() {
 			return core.Meta{
 				Level: "exploration",
 				Rule: "bounded-exhaustive: every operation history of exactly the stated length (all shorter histories are prefixes and are checked step by step) over the 15-letter full alphabet and the 6-letter core alphabet, plus PRNG histories of length 200 and burst histories (backlogs of 70..66000 items built, drained through both ends, rebuilt and drained again, with empty-queue probes); " +
-					"each executed against the real LinkedListQueue (through the Queue, Stack and concrete views) and an ideal slice deque in lock-step, followed by an alternating-ends drain; PRNG histories of 3000 (40000) operations on eight OTHER instantiations alive in the same process (element types fmt.Stringer, error, any, an anonymous interface, struct, *struct, string, func) against a slice model. distinct_nontrivial counts histories that performed both a head removal and a tail removal on a non-empty deque",
+					"each executed against the real LinkedListQueue (through the Queue, Stack and concrete views) and an ideal slice deque in lock-step, followed by an alternating-ends drain; 300 rounds of {large drain, ClearNodePool / KeepNodePoolCount, pause of 0 .. 2 ms, carry on} and a queue held by value; PRNG histories of 3000 (40000) operations on eight OTHER instantiations alive in the same process (element types fmt.Stringer, error, any, an anonymous interface, struct, *struct, string, func) against a slice model. distinct_nontrivial counts histories that performed both a head removal and a tail removal on a non-empty deque",
 				Assumptions: []string{"values are unique ints; node-pool operations are no-ops of the ideal deque",
 					"single goroutine (the property is about histories, not schedules)"},
 				Exhaustive: true,
